@@ -4,7 +4,7 @@
     InstrGotoTable(InstrHeader(..),TableId,pad)
     InstrWriteMetadata(InstrHeader(..),pad,Metadata,MetadataMask)
     InstrActions(InstrHeader(..),pad,[action…])
-    InstrMeter(InstrHeader(..),MeterId)                 -- no methods of its own: Len/Marshal/Unmarshal are InstrHeader's
+    InstrMeter(InstrHeader(..),MeterId)                 -- 8 bytes: header + meter id
     Bucket(Length,Weight,WatchPort,WatchGroup,pad,[action…])
     GroupMod(Header(..),Command,Type,pad,GroupId,[Bucket…])          -- Buckets is a slice of VALUES
     FlowMod(Header(..),Cookie,CookieMask,TableId,Command,IdleTimeout,HardTimeout,Priority,BufferId,OutPort,OutGroup,
@@ -17,7 +17,6 @@
     * FlowMod (DELETE / DELETE_STRICT) and GroupMod (DELETE): Len() and Header.Length exclude the children,
       MarshalBinary still appends them.
     * DecodeInstr: unknown / experimenter type ⇒ method call on a nil interface ⇒ panic; errors of UnmarshalBinary are dropped.
-    * InstrMeter encodes as 4 bytes (Type,Length only) and only decodes from exactly 4 bytes.
     * decoder loops are driven by the length FIELD and advance by the children's Len().
     * FlowRemoved.MarshalBinary does not set Header.Length.
   Approximations (cannot be expressed with the interfaces `R (Bytes × V)` / `Match.unmarshal : V → Slice → R V`):
@@ -232,18 +231,22 @@ end InstrActions
 
 namespace InstrMeter
 def zero : V := .obj "InstrMeter" [InstrHeader.zero, .num 0]
-/- all three methods are promoted from the embedded InstrHeader: MeterId is neither counted, written nor read -/
-def lenM (v : V) : R (UInt16 × V) := same 4 v
+def lenM (v : V) : R (UInt16 × V) := same 8 v
 def marshalM (v : V) : R (Bytes × V) :=
   match v with
-  | .obj "InstrMeter" [h, _] => do let b ← InstrHeader.bytes h; same b v
+  | .obj "InstrMeter" [h, .num m] => do let hb ← InstrHeader.bytes h; same (hb ++ be32 (n32 m)) v
   | _ => .panic
+/-- fewer than 8 bytes: error; the header from `data[:4]` (its error ignored), then the meter id -/
 def unmarshal (recv : V) (data : Slice) : R V :=
   match recv with
-  | .obj "InstrMeter" [h0, m] => do
-    let h ← InstrHeader.unmarshal h0 data
-    pure (.obj "InstrMeter" [h, m])
+  | .obj "InstrMeter" [h0, _] =>
+    if data.len < 8 then .err else do
+      let h ← InstrHeader.unmarshal4 h0 data
+      let m ← data.u32From 4
+      pure (.obj "InstrMeter" [h, V.u32 m])
   | _ => .panic
+/-- NewInstrMeter(meterId) -/
+def new (m : Nat) : V := .obj "InstrMeter" [.obj "InstrHeader" [.num Gen.openflow13.InstrType_METER, .num 8], V.u32 (n32 m)]
 end InstrMeter
 
 /- interface Instruction -/
@@ -550,6 +553,9 @@ def funcsInstr : FuncTab := [
     | _ => .panic),
   ("NewInstrWriteMetadata", fun args => match args with
     | [.num md, .num mk] => ret1 (InstrWriteMetadata.new md mk)
+    | _ => .panic),
+  ("NewInstrMeter", fun args => match args with
+    | [.num m] => ret1 (InstrMeter.new m)
     | _ => .panic),
   ("NewInstrWriteActions", fun _ => ret1 (InstrActions.new Gen.openflow13.InstrType_WRITE_ACTIONS)),
   ("NewInstrApplyActions", fun _ => ret1 (InstrActions.new Gen.openflow13.InstrType_APPLY_ACTIONS)),
